@@ -166,6 +166,32 @@ def make_kappa_c():
     return fn
 
 
+def make_fault_impedance(kind):
+    """the equivalent impedance at the fault location is the network's Thevenin impedance plus the fault impedance r_fault + j x_fault
+    (per unit on the bus base), whether the fault is resistive, reactive or both - the real _calc_rx on a symbolic Zbus entry"""
+    def fn(ctx):
+        imp = ctx.load("pandapower.shortcircuit.impedance")
+        from pandapower.pypower.idx_bus_sc import R_EQUIV, X_EQUIV, bus_cols_sc
+        from pandapower.pypower.idx_bus import bus_cols, BASE_KV
+        from symx.core import SComplex
+        rf = ctx.var("r_fault_ohm", 0.01, 20.) if kind in ("resistive", "both") else 0.0
+        xf = ctx.var("x_fault_ohm", 0.01, 20.) if kind in ("reactive", "both") else 0.0
+        rk, xk = ctx.var("r_thevenin_pu", 0.001, 1.), ctx.var("x_thevenin_pu", 0.001, 1.)
+        un, base = ctx.var("un_kv", 0.4, 400.), ctx.var("baseMVA", 1., 1000.)
+        bus = ctx.obj(np.zeros((1, bus_cols + bus_cols_sc)))
+        bus[0, BASE_KV] = un
+        Z = ctx.obj(np.zeros((1, 1), dtype=complex))
+        Z[0, 0] = SComplex(rk, xk) if ctx.symbolic else complex(rk, xk)
+        ppci = {"bus": bus, "baseMVA": base, "internal": {"Zbus": Z}}
+        net = _N()
+        net["_options"] = {"inverse_y": True, "r_fault_ohm": rf, "x_fault_ohm": xf}
+        imp._calc_rx(net, ppci, np.array([0]))
+        zb = un * un / base
+        ctx.eq("equivalent_resistance_is_thevenin_plus_fault_resistance", ppci["bus"][0, R_EQUIV] * zb, rk * zb + rf)
+        ctx.eq("equivalent_reactance_is_thevenin_plus_fault_reactance", ppci["bus"][0, X_EQUIV] * zb, xk * zb + xf)
+    return fn
+
+
 def make_ext_grid():
     def fn(ctx):
         bbus = ctx.load("pandapower.build_bus")
@@ -201,7 +227,8 @@ def instances(tier):
             Inst("kappa_method_b", make_kappa("B"), nvars=12, samples=3, meta=dict(part="kappa", method="B meshed")),
             Inst("kappa_method_b_lv", make_kappa("B_lv"), nvars=12, samples=3, meta=dict(part="kappa", method="B meshed, low voltage")),
             Inst("kappa_method_c_single_source", make_kappa_c(), nvars=16, samples=3, meta=dict(part="kappa", method="C, inverse_y True/False")),
-            Inst("ext_grid_impedance", make_ext_grid(), nvars=16, samples=3, meta=dict(part="ext_grid"))]
+            Inst("ext_grid_impedance", make_ext_grid(), nvars=16, samples=3, meta=dict(part="ext_grid"))] + \
+           [Inst(f"fault_impedance_{k}", make_fault_impedance(k), nvars=12, samples=3, meta=dict(part="fault impedance", kind=k)) for k in ("resistive", "reactive", "both")]
 
 
 LEVEL_TEXT = ("Bounded model checking of the IEC 60909 result formulas: with the Thevenin impedance as a symbolic input the real _calc_ikss, "
